@@ -11,14 +11,19 @@ pub assume_specification<T: ?Sized, A: std::alloc::Allocator> [<Arc<T, A> as std
 #[verifier::external_body] pub struct RouterConfig { x: u8 }
 #[verifier::external_body] pub struct Request { x: u8 }
 #[verifier::external_body] pub struct HttpError { x: u8 }
-#[verifier::external_body] pub struct Rule { x: u8 }
+// api::Rule: only its id and its examples are read here
+#[verifier::external_body] pub struct RuleRest { x: u8 }
+pub struct Rule { pub id: String, pub examples: Option<Vec<Example>>, pub rest: RuleRest }
 #[verifier::external_body] pub struct UnitTrace { x: u8 }
 #[verifier::external_body] pub struct RedirectionLoop { x: u8 }
 #[verifier::external_body] pub struct Action { x: u8 }
 #[verifier::external_body] pub struct FilterBodyAction { x: u8 }
 #[verifier::external_body] #[verifier::accept_recursive_types(T)] pub struct Trace<T> { h: std::marker::PhantomData<T> }
 #[verifier::external_body] #[verifier::accept_recursive_types(T)] pub struct Route<T> { h: std::marker::PhantomData<T> }
-#[verifier::accept_recursive_types(T)] pub struct Router<T> { pub config: Arc<RouterConfig>, pub h: std::marker::PhantomData<T> }
+// router::Router: its configuration is read as a field; everything else (matchers, routes) is an opaque component, so that two routers with
+// the same configuration are NOT the same value
+#[verifier::external_body] #[verifier::accept_recursive_types(T)] pub struct RouterState<T> { h: std::marker::PhantomData<T> }
+#[verifier::accept_recursive_types(T)] pub struct Router<T> { pub config: Arc<RouterConfig>, pub st: RouterState<T> }
 //@@ item src/http/header.rs :: struct Header
 //@@ item src/api/examples.rs :: struct ExampleHeader
 //@@ item src/api/examples.rs :: struct Example
@@ -115,9 +120,24 @@ impl ExplainRequestOutput {
 //@@ item src/api/impact.rs :: struct ImpactOutput
 impl Clone for Rule { #[verifier::external_body] fn clone(&self) -> (r: Self) ensures r == *self { unimplemented!() } }
 pub assume_specification [<str as PartialEq>::eq] (a: &str, b: &str) -> (r: bool) ensures r == (a@ == b@);
-impl Router<Rule> {
-    #[verifier::external_body] pub fn insert(&mut self, item: Rule) ensures final(self).config == old(self).config { unimplemented!() }
+pub uninterp spec fn has_id(r: Router<Rule>, id: Seq<char>) -> bool;      // a live rule of the router carries that id (unit lay: Router::live / routes map)
+//@@ item src/api/rules_message.rs :: struct RuleChangeSet
+#[verifier::external_body] pub broadcast proof fn axiom_arc_cloned<T>(a: Arc<T>, b: Arc<T>) ensures #[trigger] cloned::<Arc<T>>(a, b) ==> a == b {}
+impl RuleChangeSet {
+    // unit lay (Router::apply_change_set): the derived router; what ids it holds depends on the change set — nothing is promised about the studied rule
+    #[verifier::external_body] pub fn update_existing_router(self, existing_router: Arc<Router<Rule>>) -> (r: Router<Rule>) ensures r.config == existing_router.config { unimplemented!() }
 }
+impl Router<Rule> {
+    #[verifier::external_body] pub fn insert(&mut self, item: Rule) ensures final(self).config == old(self).config,
+        forall|x: Seq<char>| #[trigger] has_id(*final(self), x) <==> has_id(*old(self), x) || x == item.id@ { unimplemented!() }
+    #[verifier::external_body] pub fn remove(&mut self, id: &str) -> Option<Arc<Route<Rule>>> ensures final(self).config == old(self).config,
+        forall|x: Seq<char>| #[trigger] has_id(*final(self), x) <==> has_id(*old(self), x) && x != id@ { unimplemented!() }
+    #[verifier::external_body] pub fn from_arc_config(config: Arc<RouterConfig>) -> (r: Router<Rule>) ensures r.config == config, forall|x: Seq<char>| !#[trigger] has_id(r, x) { unimplemented!() }
+    #[verifier::external_body] pub fn from_config(config: RouterConfig) -> (r: Router<Rule>) ensures *r.config == config, forall|x: Seq<char>| !#[trigger] has_id(r, x) { unimplemented!() }
+}
+impl Clone for RouterConfig { #[verifier::external_body] fn clone(&self) -> (r: Self) ensures r == *self { unimplemented!() } }
+//@@ item src/api/impact.rs :: struct ImpactInput
+//@@ item src/api/impact.rs :: struct ImpactProjectInput
 #[verifier::external_body] pub fn outl_example_clone2(e: &Example) -> (r: Example) ensures r == *e { /* verbatim: example.to_owned() */ unimplemented!() }
 #[verifier::external_body] pub fn outl_fmt_cannot(e: &HttpError) -> String { /* verbatim: format!("Cannot create query from example: {e}") */ unimplemented!() }
 pub open spec fn impact_ok(im: Impact, router: Router<Rule>) -> bool {
@@ -135,8 +155,22 @@ impl Impact {
     //@| ensures r.error is Some,
 }
 impl ImpactOutput {
+    // incremental: the change set is applied, THEN the studied rule is taken out (whatever the change set did with it)
+    //@@ fn src/api/impact.rs :: impl ImpactOutput / fn from_impact_project -> r
+    //@| ensures true,
+    //@| entry broadcast use axiom_arc_cloned;
+    // from scratch: every rule but the studied one
+    //@@ fn src/api/impact.rs :: impl ImpactOutput / fn create_result -> r
+    //@| ensures true,
+    //@| opt r5:0
+    //@| attr #[verifier::loop_isolation(false)]
+    //@| loopbefore 0: let ghost sid = impact_input.rule.id@; let ghost nr = impact_input.rules@.len() as int; proof { assert(vf_it0_rem0.len() == nr); }
+    //@| loop 0: invariant !has_id(router, sid), 0 <= vf_it0_idx <= nr, vf_it0.remaining() == vf_it0_rem0.skip(vf_it0_idx),
+    //@|     decreases nr - vf_it0_idx,
     // every impact reported without error is the live pipeline's response on the router AS IT IS after the rule under study was put in
+    // the studied rule is put in by the analysis itself (actions add / update): it must not be in the router yet, under any id bookkeeping (C02: ids stay unique)
     //@@ fn src/api/impact.rs :: impl ImpactOutput / fn compute_impacts -> r
+    //@| requires !has_id(*old(router), rule.id@), !has_id(*old(trace_unique_router), rule.id@),
     //@| ensures forall|i: int| 0 <= i < r.impacts@.len() ==> impact_ok(#[trigger] r.impacts@[i], *final(router)),
     //@| opt r5:0
     //@| attr #[verifier::loop_isolation(false)]
